@@ -297,7 +297,14 @@ def check_commit(ctx, tu, info, mut, f, fault_table):
                 continue
             if f.pos_reaches(wp, fp):
                 bad.append((wn, wd, fnode, fd))
-    names = sorted({(f.callee_key(b[2]) or 'indirect').split('::')[-1] for b in bad})
+    def fault_name(n):
+        k = f.callee_key(n) or 'indirect'
+        last = k.split('::')[-1]
+        # the finding is "a container insertion that may throw", whichever of the standard insertion members spells it
+        if short(k).startswith('std::') and last in ('push_back', 'emplace_back', 'push_front', 'emplace_front', 'insert', 'emplace'):
+            return 'container-insert'
+        return last
+    names = sorted({fault_name(b[2]) for b in bad})
     ctx.ob('C09.C', f, 'no allocation / user code / user copy can fail after the object was modified', not bad,
            detail='\n'.join('after %s at %s, %s at %s may throw: the operation is then half done (listener attached but not recorded, '
                             'node linked but result lost, ...)' % (b[1], f.nloc(b[0]), b[3], f.nloc(b[2])) for b in bad[:3]),
